@@ -156,6 +156,61 @@ theorem default_v4_converges_in_10 (P : Nat) (hP1 : 528 ≤ P) (hP2 : P ≤ 1452
 example : Inv 1452 (new true 1500 3) := by unfold Inv; decide
 example : (outcomes 1000 10 (new true 1500 3)).minSs = 1000 := by decide
 
+/-! ### Monotonicity: the search only narrows -/
+
+/-- One step never shrinks the proven size and never raises the probe ceiling. -/
+theorem step_monotone (ceil : Nat) (s : SegSizes) (op : Op) (h : Inv ceil s) :
+    s.minSs ≤ (step s op).minSs ∧ (step s op).maxSs ≤ s.maxSs := by
+  unfold Inv at h
+  cases op with
+  | delivered p => simp only [step, onPayloadDelivered]; omega
+  | next => simp only [step, nextSegmentSize]; split <;> simp only <;> omega
+  | failed n => simp only [step, onProbeFailed]; omega
+  | disarm => simp only [step, disarmCooldown]; omega
+
+/-- **The search only narrows, for every history**: whatever the peer sends and whatever probes fail or succeed, in
+whatever order, the segment size in use (`min_ss`, the MSS) never goes down and the probe ceiling (`max_ss`) never
+goes up. A size once proven by an acknowledgement is never given up again, and a size once refuted is never probed
+again (`next_probe ≤ max_ss`, `next_segment_size_bounds`). -/
+theorem search_only_narrows (ceil : Nat) (ops : List Op) (s : SegSizes) (h : Inv ceil s) :
+    s.minSs ≤ (ops.foldl step s).minSs ∧ (ops.foldl step s).maxSs ≤ s.maxSs := by
+  induction ops generalizing s with
+  | nil => exact ⟨Nat.le_refl _, Nat.le_refl _⟩
+  | cons op t ih =>
+    have h1 := step_monotone ceil s op h
+    have h2 := ih (step s op) (step_inv ceil s op h)
+    simp only [List.foldl_cons]
+    omega
+
+theorem foldl_inv (ceil : Nat) (ops : List Op) (s : SegSizes) (h : Inv ceil s) : Inv ceil (ops.foldl step s) := by
+  induction ops generalizing s with
+  | nil => exact h
+  | cons op t ih => exact ih _ (step_inv _ s op h)
+
+/-- `skip_next_probe` (D23) touches only the cooldown. -/
+theorem skipNextProbe_sizes (s : SegSizes) :
+    s.skipNextProbe.minSs = s.minSs ∧ s.skipNextProbe.maxSs = s.maxSs ∧ 1 ≤ s.skipNextProbe.cooldownRemaining := by
+  refine ⟨rfl, rfl, ?_⟩
+  simp only [skipNextProbe]; omega
+
+/-- Once the search has closed (`min_ss = max_ss`) it stays closed at that size: no later delivery, failure or
+cooldown event re-opens probing. -/
+theorem closed_search_stays_closed (ceil : Nat) (ops : List Op) (s : SegSizes) (h : Inv ceil s)
+    (hc : s.minSs = s.maxSs) :
+    (ops.foldl step s).minSs = s.minSs ∧ (ops.foldl step s).maxSs = s.maxSs ∧
+    (ops.foldl step s).isProbing = false := by
+  have hm := search_only_narrows ceil ops s h
+  have hi := foldl_inv ceil ops s h
+  unfold Inv at hi
+  refine ⟨by omega, by omega, ?_⟩
+  have hn : ¬ ((ops.foldl step s).nextProbe > (ops.foldl step s).minSs) := by unfold nextProbe; omega
+  simpa [isProbing] using hn
+
+-- Non-vacuity: a peer-sized delivery closes the search at the ceiling; a later failure does not re-open it.
+example : Inv 1452 (new true 1500 5) ∧
+    ([Op.next, .delivered 3000, .failed 991, .next].foldl step (new true 1500 5)).minSs = 1452 :=
+  ⟨by unfold Inv; decide, by decide⟩
+
 /-! ### Tie 1b: the hand-written model of this function equals the definition regenerated from the Rust source
 
 `UtpVerif.Gen.Fns` is rewritten by `tools/translate_fns.py` from /repo's current source on every run; the theorems
